@@ -174,6 +174,7 @@ func c07(c *core.Ctx, r *core.Report) {
 	rule(r, "C07.R2", "classifier: the recovered value reaches the classifier; every path with a non-nil value calls T.Fail unless it is the FailNow sentinel; panic(sentinel) occurs only in FailNow after the failure store", func() {
 		// the classifier: callee receiving recover()'s result
 		var classifier *ssa.Function
+		var recValue ssa.Value
 		for _, fn := range c.AllFuncs {
 			rc, ok := recovering(fn)
 			if !ok || core.RelPkg(fn) != tpkg {
@@ -181,9 +182,13 @@ func c07(c *core.Ctx, r *core.Report) {
 			}
 			v, _ := rc.(ssa.Value)
 			used := false
+			// classified in place (the value is tested here) or handed to a classifier of this package
 			for _, ref := range an.Referrers(v) {
-				if call, ok := ref.(ssa.CallInstruction); ok {
-					if t := an.Callee(call); t != nil && core.InModule(t) {
+				switch x := ref.(type) {
+				case *ssa.BinOp, *ssa.TypeAssert:
+					classifier, recValue, used = fn, v, true
+				case ssa.CallInstruction:
+					if t := an.Callee(x); t != nil && core.RelPkg(t) == tpkg && classifier != fn {
 						classifier = t
 						used = true
 					}
@@ -195,10 +200,14 @@ func c07(c *core.Ctx, r *core.Report) {
 			r.Undecided("anchor:classifier", "-", "no function receives recover()'s result")
 			return
 		}
-		var recParam *ssa.Parameter
-		for _, p := range classifier.Params {
-			if types.IsInterface(p.Type()) {
-				recParam = p
+		var recParam ssa.Value
+		if recValue != nil {
+			recParam = recValue
+		} else {
+			for _, p := range classifier.Params {
+				if types.IsInterface(p.Type()) {
+					recParam = p
+				}
 			}
 		}
 		paths, err := an.DecisionPaths(classifier, 256)
@@ -211,7 +220,7 @@ func c07(c *core.Ctx, r *core.Report) {
 			nilPath, sentinel := false, false
 			for _, l := range p.Lits {
 				d := an.D().Of(l.Cond)
-				if bo, ok := an.Strip(l.Cond).(*ssa.BinOp); ok && recParam != nil && an.Strip(bo.X) == ssa.Value(recParam) {
+				if bo, ok := an.Strip(l.Cond).(*ssa.BinOp); ok && recParam != nil && an.Strip(bo.X) == recParam {
 					if k, ok := bo.Y.(*ssa.Const); ok && k.IsNil() {
 						if (bo.Op == token.EQL && l.Val) || (bo.Op == token.NEQ && !l.Val) {
 							nilPath = true
